@@ -14,7 +14,7 @@ from ..model import AnalysisError, src
 from ..report import Report, key_of
 from ..terms import pretty
 from ..types import Ctx
-from .common import TRUSTED_BASE, cfg_nodes_for, is_run_edge, where
+from .common import TRUSTED_BASE, cfg_nodes_for, inl, is_run_edge, where
 from .purity import check_stateless
 
 CONSTRUCTION = ['Chain.__init__', 'Chain._prepare', 'MultiChain.__init__', 'MultiChain._prepare', 'Config.chain']
@@ -98,14 +98,14 @@ def run(A, R: Report, thorough: bool):
     # ---- R04.2 / R04.3 on Task.data
     fdata = task.lookup('data')
     cfg = A.cfg(fdata)
-    loads = [n for n in A.typer.own_nodes(fdata) if isinstance(n, ast.Call) and isinstance(n.func, ast.Attribute) and n.func.attr == 'load']
-    runs = [n for n in A.typer.own_nodes(fdata) if isinstance(n, ast.Call) and isinstance(n.func, ast.Attribute) and n.func.attr == 'run'
+    loads = [n for n in inl(A, fdata) if isinstance(n, ast.Call) and isinstance(n.func, ast.Attribute) and n.func.attr == 'load']
+    runs = [n for n in inl(A, fdata) if isinstance(n, ast.Call) and isinstance(n.func, ast.Attribute) and n.func.attr == 'run'
             and isinstance(n.func.value, ast.Name) and n.func.value.id == 'self']
     R.require(loads, 'anchor: no `.load(...)` call in Task.data')
     R.require(runs, 'anchor: no `self.run(...)` call in Task.data')
     R.rule('R04.2', 'every CFG path of Task.data through the load statement has no construct reaching run() / input values', floor=1)
     import networkx as nx
-    ctxs = A.ctxs(fdata)
+    ctxs = [c for f2 in {o.qualname: o for _, o in A.nodes(fdata)}.values() for c in A.typer.contexts_of(f2)] or A.ctxs(fdata)
     for ld in loads:
         for ln in cfg_nodes_for(cfg, ld):
             through = (set(nx.ancestors(cfg.g, ln.id)) | set(nx.descendants(cfg.g, ln.id)) | {ln.id})
